@@ -1285,7 +1285,7 @@ class Engine:
             elem = from_z3(z3.Select(L.arr, k), L.et) if isinstance(L, SList) else (L[1] + k * L[3])
             self.assign(node.target, elem, body)
         else:
-            body.assume(self.ev_cond(node.test, body))
+            body.assume(self._loop_test(node, body))
         if feasible(body.pc):
             body.trace.append('iter')
             self.ctx.add(core.satisfiable('%s/%s/vacuity/body-reachable' % (self.label, tag), list(body.pc)))
@@ -1316,7 +1316,7 @@ class Engine:
         if is_for:
             ex.assume(ex.env[spec.index] >= n_iter)
         else:
-            ex.assume(z3.Not(self.ev_cond(node.test, ex)))
+            ex.assume(z3.Not(self._loop_test(node, ex)))
         if feasible(ex.pc):
             ex.trace.append('loop-exit')
             if node.orelse:
@@ -1324,6 +1324,14 @@ class Engine:
             else:
                 outs.append((ex, ('next',)))
         return outs
+
+    def _loop_test(self, node, st):
+        try:
+            return self.ev_cond(node.test, st)
+        except Fork:
+            # a split would re-execute the whole loop statement from the state before the loop, with the effects of the chosen
+            # outcome applied there - not at the arbitrary iteration the test is evaluated in
+            raise Undecided('L%d: the test of a while loop splits the path (call model with several outcomes, short-circuit operand that raises)' % node.lineno)
 
     def range_len(self, r):
         _, lo, hi, step = r
